@@ -109,17 +109,19 @@ def run(ctx):
     reps = 1 if ctx.quick else 4
     for name in names:
         slow = name in gen.SLOW
-        for rep in range(reps):
+        import inspect
+        has_mss = "max_sample_size" in inspect.signature(gen.opt_class(name).__init__).parameters
+        for rep in range(reps + (1 if has_mss else 0)):
+            limited = has_mss and rep == reps          # one extra round per model-based class with a sampled candidate grid
             cfg = gen.gen_opt_config(rng, name, space0) if rng.random() < 0.6 else {}
             if name in ("GeneticAlgorithmOptimizer", "DifferentialEvolutionOptimizer"):
                 cfg.pop("population", None)
             if name in gen.SMBO and name != "LipschitzOptimizer" and rng.random() < 0.5:
                 cfg["sampling"] = {"random": rng.choice([10, 20])}
-            import inspect
-            if "max_sample_size" in inspect.signature(gen.opt_class(name).__init__).parameters and (rep == 0 or rng.random() < 0.5):
+            if limited:
                 # below |space0| = 35: the candidate grid itself is sampled; what follows must draw again (a small random candidate sample,
                 # random restarts), otherwise nothing random happens after the grid and a difference in the draws stays invisible
-                cfg["max_sample_size"] = 21 + (names.index(name) + 5 * rep) % 13      # a different limit per class: nothing shared between classes by value
+                cfg["max_sample_size"] = 21 + names.index(name) % 13      # a different limit per class: nothing shared between classes by value
                 if "sampling" in inspect.signature(gen.opt_class(name).__init__).parameters and name != "LipschitzOptimizer":
                     cfg["sampling"] = {"random": rng.choice([3, 4])}
                 cfg["rand_rest_p"] = 0.25
@@ -130,11 +132,11 @@ def run(ctx):
                 feas, _ = gen.gen_constraint(rng, space0, kind=rng.choice(["halfspace", "mask"]))
             n_iter = 14 if slow else 25
             seed = rng.randrange(0, 10 ** 6)
-            for nth in ([None, 2] if rep == 0 else [rng.choice([None, 0, 2])]):
+            for nth in ([None, 2] if rep == 0 else ([None] if limited else [rng.choice([None, 0, 2])])):
                 key = (name, seed, nth, repr(sorted(cfg.items())))
                 try:
                     a = run_once(name, space0, f0, seed, nth, 111, n_iter, cfg, feas)
-                    if rep == 0:
+                    if rep == 0 or limited:
                         # between the two runs another instance of the same class works on a space of another dimension: whatever it leaves
                         # behind in the process (a module-level surrogate, class attributes, caches) must not reach the second run
                         try:
